@@ -389,7 +389,7 @@ class C12(Property):
             self.extra_coverage = {"small_scope_cases": total,
                                    "small_scope": "every single-subregion region (all starts/ends, also over the origin and "
                                                   "all the way round) on a line and a ring of 12 bases x 3 fixed gene layouts"}
-        n = 20000 if deep else 2000
+        n = 20000 if deep else 1500
         for i in range(n):
             r = rng.random()
             if r < 0.70:
